@@ -171,14 +171,21 @@ func c18(c *core.Ctx) {
 			key := core.FuncName(cloneMsg)
 			ok := false
 			for _, r := range core.Returns(cloneMsg) {
-				if core.OriginIs(r.Results[0], func(o ssa.Value) bool {
+				if core.ClassifyErr(r.Results[1], r) == core.ErrNonNil {
+					continue
+				}
+				// every success return yields a clone of the argument, never the argument itself
+				if core.AllOrigins(r.Results[0], func(o ssa.Value) bool {
 					call, _, isC := core.CallResult(o)
 					return isC && core.InfoOf(&call.Call).Name == "Clone" && core.OriginIs(call.Call.Args[0], func(a ssa.Value) bool { return a == ssa.Value(cloneMsg.Params[0]) })
 				}) {
 					ok = true
+				} else {
+					ok = false
+					break
 				}
 			}
-			c.Check(ok, key+":deep-clone", cloneMsg.Pos(), "returns proto.Clone of its argument", "the default clone does not return proto.Clone(source)")
+			c.Check(ok, key+":deep-clone", cloneMsg.Pos(), "every success return yields proto.Clone of the argument", "the default clone can return something other than proto.Clone(source) (e.g. the source itself for some messages): caller and handler would share the object")
 		} else {
 			c.Missing("default message clone in internal")
 		}
@@ -229,6 +236,17 @@ func c18(c *core.Ctx) {
 					core.OriginIs(unmarshal.Call.Args[0], func(o ssa.Value) bool { cr, idx, ok := core.CallResult(o); return ok && cr == marshal && idx == 0 }) &&
 					unmarshal.Call.Args[1] == ssa.Value(fn.Params[0])
 				c.Check(okRT, key+":codec-round-trip", marshal.Pos(), "Unmarshal(Marshal(in), out) with the very bytes marshalled", "the codec adapter does not unmarshal the bytes it marshalled from the source into the destination")
+				// success only after the decode ran (it is what replaces the destination's content)
+				okDec := true
+				for _, r := range core.Returns(fn) {
+					if core.ClassifyErr(r.Results[0], r) == core.ErrNonNil {
+						continue
+					}
+					if !core.MustPass(core.Entry(fn), r, func(in ssa.Instruction) bool { return in == ssa.Instruction(unmarshal) }) {
+						okDec = false
+					}
+				}
+				c.Check(okDec, key+":always-unmarshals", unmarshal.Pos(), "success is reported only after Unmarshal into the destination", "the codec adapter can report success without unmarshalling (e.g. a shortcut for empty encodings): the destination keeps its previous content")
 				// both errors returned
 				errsReturned := 0
 				for _, r := range core.Returns(fn) {
